@@ -36,6 +36,7 @@ inline int rc_harness_main(int argc, char **argv, const std::vector<Mode> &modes
     std::string text;
     if (!read_file(replay, text)) { msg("cannot read %s\n", replay.c_str()); return 3; }
     text = strip_comments(text);
+    stats().arm_watchdog();
     std::string sig; bool nt = false;
     bool ok = run_case(text, sig, nt);
     if (ok) { msg("PASS\n"); return 0; }
